@@ -60,7 +60,7 @@ theorem invA_init (cfg : Cfg) : InvA cfg (init cfg) := by
 
 theorem invA_step (cfg : Cfg) (s : St) (op : Op) (h : InvA cfg s) : InvA cfg (step cfg s op) := by
   obtain ⟨clock, prodDone, finTime, suicide, armed, consume, retries, cancel, kc, hasProc, procKilled,
-    lastLaunched, aged, hasOutput, lastOutput, outs, execLog, pc, cause, pollsFin, books⟩ := s
+    lastLaunched, aged, hasOutput, lastOutput, outs, execLog, pc, cause, pollsFin, books, started⟩ := s
   simp only [InvA] at h ⊢
   rcases op with e | o
   · cases e with
@@ -83,7 +83,7 @@ theorem invB_init (cfg : Cfg) : InvB cfg (init cfg) := by
 
 theorem invB_step (cfg : Cfg) (s : St) (op : Op) (h : InvB cfg s) : InvB cfg (step cfg s op) := by
   obtain ⟨clock, prodDone, finTime, suicide, armed, consume, retries, cancel, kc, hasProc, procKilled,
-    lastLaunched, aged, hasOutput, lastOutput, outs, execLog, pc, cause, pollsFin, books⟩ := s
+    lastLaunched, aged, hasOutput, lastOutput, outs, execLog, pc, cause, pollsFin, books, started⟩ := s
   simp only [InvB] at h ⊢
   rcases op with e | o
   · cases e <;> simp only [step, envStep, doKill] <;> (repeat' split) <;> grind [Pc.pdws, Pc.fc]
@@ -105,7 +105,7 @@ theorem invC_step (cfg : Cfg) (hf : Fixed cfg) (s : St) (op : Op) (hB : InvB cfg
     InvC cfg (step cfg s op) := by
   obtain ⟨g1, g2⟩ := hf
   obtain ⟨clock, prodDone, finTime, suicide, armed, consume, retries, cancel, kc, hasProc, procKilled,
-    lastLaunched, aged, hasOutput, lastOutput, outs, execLog, pc, cause, pollsFin, books⟩ := s
+    lastLaunched, aged, hasOutput, lastOutput, outs, execLog, pc, cause, pollsFin, books, started⟩ := s
   simp only [InvB, InvC] at hB h ⊢
   rcases op with e | o
   · cases e <;> simp only [step, envStep, doKill] <;> (repeat' split) <;>
@@ -139,7 +139,7 @@ theorem invD_init (cfg : Cfg) (hp : cfg.preOutput = false) : InvD cfg (init cfg)
 theorem invD_step (cfg : Cfg) (hr : 1 ≤ cfg.retries) (s : St) (op : Op)
     (hB : InvB cfg s) (h : InvD cfg s) : InvD cfg (step cfg s op) := by
   obtain ⟨clock, prodDone, finTime, suicide, armed, consume, retries, cancel, kc, hasProc, procKilled,
-    lastLaunched, aged, hasOutput, lastOutput, outs, execLog, pc, cause, pollsFin, books⟩ := s
+    lastLaunched, aged, hasOutput, lastOutput, outs, execLog, pc, cause, pollsFin, books, started⟩ := s
   simp only [InvB, InvD, selfCause] at hB h ⊢
   rcases op with e | o
   · cases e <;> simp only [step, envStep, doKill] <;> (repeat' split) <;>
